@@ -35,37 +35,37 @@ theorem putLink_dry (k : Key) (t : Str) (s : St) : (putLink cfg k t s).fs = s.fs
 theorem copyPrepare_dry (src : Src) (to : Str) (mk : Option Str) (s : St) :
     (copyPrepare cfg src to mk s).1.fs = s.fs := by
   unfold copyPrepare
-  dsimp only
+  try dsimp only
   (repeat' split) <;> simp [remove_dry cfg h, dmMakedirs_dry cfg h]
 
 theorem copyPayload_dry (fp : Str) (src : Src) (to od : Str) (fo : Option Bool) (s : St) :
     (copyPayload cfg fp src to od fo s).fs = s.fs := by
   unfold copyPayload
-  dsimp only
+  try dsimp only
   (repeat' split) <;> simp [putLink_dry cfg h, putFile_dry cfg h]
 
 theorem doCopyfile_dry (fp : Str) (src : Src) (to : Str) (mk : Option Str) (fo : Option Bool) (s : St) :
     (doCopyfile cfg fp src to mk fo s).1.fs = s.fs := by
   unfold doCopyfile
-  dsimp only
+  try dsimp only
   (repeat' split) <;> simp [copyPayload_dry cfg h, copyPrepare_dry cfg h]
 
 theorem doSymlink_dry (t l : Str) (s : St) : (doSymlink cfg t l s).1.fs = s.fs := by
   unfold doSymlink
-  dsimp only
+  try dsimp only
   (repeat' split) <;> simp_all [remove_dry cfg h]
 
 theorem copydirDirStep_dry (dst : Str) (ex : List Str) (rel : List Str) (a : CdAcc) (e : Str × DirEnt) :
     (copydirDirStep cfg dst ex rel a e).s.fs = a.s.fs := by
   unfold copydirDirStep
-  dsimp only
+  try dsimp only
   (repeat' split) <;> simp_all [dmMakedirs_dry cfg h]
 
 theorem copydirFileStep_dry (sr dst : Str) (ex : List Str) (rel : List Str) (rm : Nat) (m : Option FileMode)
     (fo : Option Bool) (s : St) (e : Str × Src) :
     (copydirFileStep cfg sr dst ex rel rm m fo s e).fs = s.fs := by
   unfold copydirFileStep
-  dsimp only
+  try dsimp only
   (repeat' split) <;> simp_all [dmMakedirs_dry cfg h, setMode_dry cfg h, doCopyfile_dry cfg h]
 
 end
@@ -84,7 +84,7 @@ theorem copydirRec_dry (sd dd : Str) (ef ed : List Str) (m : Option FileMode) (f
     (st : St × List (List Str)) (r : WalkRec) :
     (copydirRec cfg sd dd ef ed m fo st r).1.fs = st.1.fs := by
   unfold copydirRec
-  dsimp only
+  try dsimp only
   split
   · rfl
   · split
@@ -95,7 +95,7 @@ theorem copydirRec_dry (sd dd : Str) (ef ed : List Str) (m : Option FileMode) (f
 theorem doCopydir_dry (sd dd : Str) (ex : Option (List Str × List Str)) (m : Option FileMode) (fo : Option Bool)
     (w : List WalkRec) (s : St) : (doCopydir cfg sd dd ex m fo w s).fs = s.fs := by
   unfold doCopydir
-  dsimp only
+  try dsimp only
   (repeat' split) <;> try rfl
   all_goals
     exact foldl_fs_inv (fun st : St × List (List Str) => st.1.fs) _
@@ -103,48 +103,48 @@ theorem doCopydir_dry (sd dd : Str) (ex : Option (List Str × List Str)) (m : Op
 
 theorem installSubdir_dry (s : St) (e : SubdirEntry) : (installSubdir cfg s e).fs = s.fs := by
   unfold installSubdir
-  dsimp only
+  try dsimp only
   (repeat' split) <;> simp [doCopydir_dry cfg h, dmMakedirs_dry cfg h]
 
 theorem installTarget_dry (s : St) (e : TargetEntry) : (installTarget cfg s e).fs = s.fs := by
   unfold installTarget
-  dsimp only
+  try dsimp only
   (repeat' split) <;> simp [doCopydir_dry cfg h, dmMakedirs_dry cfg h, doCopyfile_dry cfg h, setMode_dry cfg h]
 
 theorem installFileTo_dry (e : DataEntry) (o od : Str) (fo : Option Bool) (s : St) :
     (installFileTo cfg e o od fo s).fs = s.fs := by
   unfold installFileTo
-  dsimp only
+  try dsimp only
   (repeat' split) <;> simp [doCopyfile_dry cfg h, setMode_dry cfg h]
 
 theorem installHeader_dry (s : St) (e : DataEntry) : (installHeader cfg s e).fs = s.fs := by
   unfold installHeader
-  dsimp only
+  try dsimp only
   (repeat' split) <;> simp [installFileTo_dry cfg h]
 
 theorem installMan_dry (s : St) (e : DataEntry) : (installMan cfg s e).fs = s.fs := by
   unfold installMan
-  dsimp only
+  try dsimp only
   (repeat' split) <;> simp [installFileTo_dry cfg h]
 
 theorem installDataOne_dry (s : St) (e : DataEntry) : (installDataOne cfg s e).fs = s.fs := by
   unfold installDataOne
-  dsimp only
+  try dsimp only
   (repeat' split) <;> simp [installFileTo_dry cfg h]
 
 theorem installEmptydir_dry (s : St) (e : EmptyDirEntry) : (installEmptydir cfg s e).fs = s.fs := by
   unfold installEmptydir
-  dsimp only
+  try dsimp only
   (repeat' split) <;> simp [dmMakedirs_dry cfg h, setMode_dry cfg h]
 
 theorem installSymlink_dry (s : St) (e : SymlinkEntry) : (installSymlink cfg s e).fs = s.fs := by
   unfold installSymlink
-  dsimp only
+  try dsimp only
   (repeat' split) <;> simp [dmMakedirs_dry cfg h, doSymlink_dry cfg h]
 
 theorem installBody_dry (p : Plan) (s : St) : (installBody cfg p s).fs = s.fs := by
   unfold installBody
-  dsimp only
+  try dsimp only
   rw [foldl_fs_inv (fun s : St => s.fs) _ (installSymlink_dry cfg h),
       foldl_fs_inv (fun s : St => s.fs) _ (installDataOne_dry cfg h),
       foldl_fs_inv (fun s : St => s.fs) _ (installEmptydir_dry cfg h),
